@@ -199,6 +199,16 @@ theorem C08_status_is_den_dyn (inp : RunInput) (s : Sys) (hr : Reach inp s ∨ P
     (∀ d, (∃ e ∈ s.events, Ev.den? t e = some d) → Dyn.DenOf inp t d) :=
   ⟨Dyn.status_is_den hr t, fun d h => Dyn.report_is_den hr t d h⟩
 
+/-- the operational link behind the failed-delivery clause of the denotation: in every reachable state, a task whose
+    `run_status` is `fail` has a start event (`Run.started`, the flag `deliverF` reads: `Task.execute` ran, so
+    `task.values` may hold what the actions returned before the failing one) iff its derived outcome is a failure
+    DURING its execution (`startedFail`: the actions failed or `save_success` did — not an unmet dependency, a
+    `get_status` error or a `getargs` error, which `select_task` finds before any action runs) -/
+theorem C08_failed_started_iff (inp : RunInput) (s : Sys) (hr : Reach inp s ∨ PReach inp s) (c : Name)
+    (hf : stOf s c = .fail) :
+    started s c = true ↔ ∃ d, Dyn.DenOf inp c d ∧ startedFail inp c d = true :=
+  (Dyn.reachable_invDen hr).started_iff (by rcases hr with a | a; exact reach_inv3 a; exact (preach_inv a).2) c hf
+
 /-- the dynamic denotation is a function of the task table and the oracle (including `calcRes`, `calcResFail`) only -/
 theorem C08_den_schedule_independent_dyn (inp1 inp2 : RunInput) (h : SameTasks inp1 inp2)
     (hc : ∀ t, inp1.calcRes t = inp2.calcRes t) (hcf : ∀ t, inp1.calcResFail t = inp2.calcResFail t) (t : Name)
